@@ -15,9 +15,9 @@ git apply "$D/patch.diff" || { echo '{"error":"patch does not apply"}'; exit 2; 
 go build ./... >/dev/null 2>&1; B=$?
 go test -vet=off -count=1 ./... >/tmp/cm-suite-$$.log 2>&1; S=$?
 mkdir -p "$(dirname "$DEST")"; cp "$DEMO" "$DEST"
-go test -vet=off -count=1 -run "$RUN" "$PKG" >/tmp/cm-with-$$.log 2>&1; W=$?
+go test ${DEMOFLAGS:-} -vet=off -count=1 -run "$RUN" "$PKG" >/tmp/cm-with-$$.log 2>&1; W=$?
 git checkout -- . ; 
-go test -vet=off -count=1 -run "$RUN" "$PKG" >/tmp/cm-without-$$.log 2>&1; WO=$?
+go test ${DEMOFLAGS:-} -vet=off -count=1 -run "$RUN" "$PKG" >/tmp/cm-without-$$.log 2>&1; WO=$?
 rm -f "$DEST"
 echo "{\"builds\": $([ $B = 0 ] && echo true || echo false), \"suite_passes\": $([ $S = 0 ] && echo true || echo false), \"demo_fails_with\": $([ $W != 0 ] && echo true || echo false), \"demo_passes_without\": $([ $WO = 0 ] && echo true || echo false)}"
 rm -f /tmp/cm-suite-$$.log /tmp/cm-with-$$.log /tmp/cm-without-$$.log
